@@ -237,6 +237,22 @@ pub fn analyze<'a>(tree: &'a ExprTree) -> Result<Info<'a>> {
     analyzer.visit(&tree.expr)
 }
 
+/// Verification hook (only with `--cfg fancy_regex_verif`): the per-node analysis results in
+/// pre-order as `(start_group, end_group, min_size, const_size, hard)`.
+#[cfg(fancy_regex_verif)]
+pub fn verif_facts(info: &Info<'_>, out: &mut Vec<(usize, usize, usize, bool, bool)>) {
+    out.push((
+        info.start_group,
+        info.end_group,
+        info.min_size,
+        info.const_size,
+        info.hard,
+    ));
+    for child in &info.children {
+        verif_facts(child, out);
+    }
+}
+
 #[cfg(test)]
 mod tests {
     use super::analyze;
